@@ -3,7 +3,7 @@
    domain: every request / response class of both versions, every data type reachable by
    annotation, every 1.6 data type by structural fit). *)
 From Coq Require Import List String Bool.
-From OV.Model Require Import Json Names Schema Classes Vocab ClassCheck ClassCheckProofs.
+From OV.Model Require Import Json Names Schema Classes Vocab ClassCheck ClassCheckProofs MaterialiseProofs.
 From OV.Gen Require Import Schemas16 Schemas201 Classes16 Classes201.
 Import ListNotations.
 Local Open Scope string_scope.
@@ -53,3 +53,20 @@ Theorem C11_field_names_roundtrip :
           (calls16 ++ results16 ++ calls201 ++ results201) = true.
 Proof. vm_compute. reflexivity. Qed.
 Print Assumptions C11_field_names_roundtrip.
+
+(* Hence: any schema-valid reply can be materialised as its result class -- for every result class
+   of both versions, every payload object (pairwise different keys) that is declaratively valid
+   against the response schema yields keyword arguments the class constructor accepts: no
+   unexpected keyword, no missing mandatory one.  Chains C04 (Valid), C10 (names), C11 (fields). *)
+Theorem C11_materialises16 :
+  forall c, In c results16 ->
+    exists s, assoc (c_name c ++ "Response") schemas16 = Some s /\
+              forall sm pm o, NoDup (keys o) -> Valid sm pm s (JObj o) -> constructible c (kwargs_keys o).
+Proof. apply (table_materialises datatypes16); [apply C11_walk_clean | vm_compute; reflexivity]. Qed.
+Theorem C11_materialises201 :
+  forall c, In c results201 ->
+    exists s, assoc (c_name c ++ "Response") schemas201 = Some s /\
+              forall sm pm o, NoDup (keys o) -> Valid sm pm s (JObj o) -> constructible c (kwargs_keys o).
+Proof. apply (table_materialises datatypes201); [apply C11_walk_clean | vm_compute; reflexivity]. Qed.
+Print Assumptions C11_materialises16.
+Print Assumptions C11_materialises201.
